@@ -636,8 +636,11 @@ def main(argv):
     except Exception:
         fb = []
     for x in fb:
-        msg = ('layout %s (%s): the source text is not in a shape the translator reads (%s); the pinned copy '
-               'tie/pinned/layouts.json is used and this reader is tied by the correspondence run only' % (x['reader'], x['source'], x['why']))
+        if x.get('how'):
+            msg = ('table %s (%s): not written as a literal any more (%s); %s' % (x['reader'], x['source'], x['why'], x['how']))
+        else:
+            msg = ('layout %s (%s): the source text is not in a shape the translator reads (%s); the pinned copy '
+                   'tie/pinned/layouts.json is used and this reader is tied by the correspondence run only' % (x['reader'], x['source'], x['why']))
         tb.append('translator fallback: ' + msg)
         lines_note.append('NOTE: ' + msg)
     tb.append('Print Assumptions (%d theorems in %s): %s' % (n_printed, prop_file,
